@@ -406,7 +406,7 @@ impl Property for C20 {
     }
 
     fn rule() -> &'static str {
-        "one evaluation = one seeded scenario (replace option flavour -I R / -i / --replace[=R] with R from a pool incl. multi-byte and self-overlapping strings, initial arguments with 0/1/many/adjacent occurrences of R, input lines with inner blanks, empty lines, lines containing R, missing final newline, empty input; every order of -I/-n/-L; read plan; child-outcome script) run through xargs_main and compared with the reference (one run per non-empty line, whole line substituted everywhere, nothing appended, last option decides); also -s that every line fits by 0-5 bytes, and a 1/25 slice with real children (no access to xargs' own input stream); 1/60 of the runs have a line that makes one argument 1-200 bytes short of the kernel's 128 KiB single-string limit; environment variables nobody should listen to in an eighth of the runs; a slice of the scenarios also goes through the real xargs executable (standard input a pipe, a regular file, a regular file read from an offset: a difference is a violation); distinct = distinct abstract trace; non-trivial = a fault fired or a mode/shape probe hit"
+        "one evaluation = one seeded scenario (replace option flavour -I R / -i / --replace[=R] with R from a pool incl. multi-byte and self-overlapping strings, initial arguments with 0/1/many/adjacent occurrences of R, input lines with inner blanks, empty lines, lines containing R, missing final newline, empty input; every order of -I/-n/-L; read plan; child-outcome script) run through xargs_main and compared with the reference (one run per non-empty line, whole line substituted everywhere, nothing appended, last option decides); also -s that every line fits by 0-5 bytes, and a 1/25 slice with real children (no access to xargs' own input stream); 1/60 of the runs have a line that makes one argument 1-200 bytes short of the kernel's 128 KiB single-string limit; a tenth of the replace-mode runs append a line that cannot be passed at all (-s + 1..20 bytes, or 131072/131073/131077 bytes) behind ordinary lines: every earlier line has its run, then xargs' own error, status 1, nothing after; environment variables nobody should listen to in an eighth of the runs; a slice of the scenarios also goes through the real xargs executable (standard input a pipe, a regular file, a regular file read from an offset: a difference is a violation); distinct = distinct abstract trace; non-trivial = a fault fired or a mode/shape probe hit"
     }
 
     fn components() -> Value {
